@@ -32,6 +32,8 @@
 //	Java         0-6 files (class / interface, a few enum / annotation-type files), under src/main/java and
 //	             src/test/java, importing a chosen subset of the declared groups (single-type, on-demand, static),
 //	             plus near-miss imports (a proper prefix of a group) and unrelated imports.
+//	             Head layout: one declaration per line, or imports sharing a line, the first import on the package
+//	             line, or package and all imports on one line; import-looking lines inside block / line comments.
 package buildgen
 
 import (
@@ -81,7 +83,13 @@ type JavaFile struct {
 	Path    string   `json:"path"` // relative, slash separated
 	Kind    string   `json:"kind"` // class | interface | enum | annotation
 	Imports []string `json:"imports"`
-	Text    string   `json:"text"`
+	// Layout of the file head: plain (one declaration per line) | imports-share-lines | import-on-package-line | head-on-one-line
+	Layout string `json:"layout"`
+	// NotFirstOnLine lists the imports (subset of Imports) that follow another declaration on their line
+	NotFirstOnLine []string `json:"not_first_on_line,omitempty"`
+	// CommentedImports are import-looking lines written inside a comment: they import nothing
+	CommentedImports []string `json:"commented_imports,omitempty"`
+	Text             string   `json:"text"`
 }
 
 // Project = manifest + sources.
@@ -1064,6 +1072,11 @@ func GenJava(r *run.Rand, builds ...*Build) ([]JavaFile, string) {
 		perFile[k] = append(perFile[k], im)
 	}
 	pkgs := []string{"com.app", "com.app.service", "com.app.web", "com.app.repo"}
+	type javaParts struct {
+		hdr, pkg, body string
+		lines, names   []string
+	}
+	parts := make([]javaParts, nFiles)
 	for i := 0; i < nFiles; i++ {
 		kind := "class"
 		switch x := r.Intn(40); {
@@ -1101,17 +1114,11 @@ func GenJava(r *run.Rand, builds ...*Build) ([]JavaFile, string) {
 			lines = append(lines, l)
 			names = append(names, ims[j].name)
 		}
-		var t strings.Builder
+		var hdr string
 		if r.Chance(1, 6) {
-			t.WriteString("/*\n * Copyright the demo authors.\n */\n")
+			hdr = "/*\n * Copyright the demo authors.\n */\n"
 		}
-		t.WriteString("package " + pkg + ";\n\n")
-		for _, l := range lines {
-			t.WriteString(l + "\n")
-		}
-		if len(lines) > 0 {
-			t.WriteString("\n")
-		}
+		var t strings.Builder
 		switch kind {
 		case "class":
 			t.WriteString("public class " + name + " {\n")
@@ -1138,7 +1145,78 @@ func GenJava(r *run.Rand, builds ...*Build) ([]JavaFile, string) {
 		case "annotation":
 			t.WriteString("public @interface " + name + " {\n    String value();\n}\n")
 		}
-		files[i] = JavaFile{Path: root + strings.ReplaceAll(pkg, ".", "/") + "/" + name + ".java", Kind: kind, Imports: names, Text: t.String()}
+		files[i] = JavaFile{Path: root + strings.ReplaceAll(pkg, ".", "/") + "/" + name + ".java", Kind: kind, Imports: names}
+		parts[i] = javaParts{hdr: hdr, pkg: pkg, lines: lines, names: names, body: t.String()}
+	}
+	// Layout of the head of each file. Drawn after everything else, from an own stream, so that names, imports and
+	// bodies are what they were without this dimension. All variants are the same token sequence for a Java
+	// parser: declarations may share a line, and text inside a comment is no declaration.
+	lr := r.Fork()
+	var importable []string
+	for _, g := range groups {
+		if javaPackageOK(g) {
+			importable = append(importable, g)
+		}
+	}
+	for i := range files {
+		pt := parts[i]
+		layout := "plain"
+		switch x := lr.Intn(10); {
+		case x == 0 && len(pt.lines) >= 2:
+			layout = "imports-share-lines"
+		case x == 1 && len(pt.lines) >= 1:
+			layout = "import-on-package-line"
+		case x == 2 && len(pt.lines) >= 1:
+			layout = "head-on-one-line"
+		}
+		var t strings.Builder
+		t.WriteString(pt.hdr)
+		switch layout {
+		case "imports-share-lines":
+			t.WriteString("package " + pt.pkg + ";\n\n")
+			for k := 0; k < len(pt.lines); k += 2 {
+				if k+1 < len(pt.lines) {
+					files[i].NotFirstOnLine = append(files[i].NotFirstOnLine, pt.names[k+1])
+					t.WriteString(pt.lines[k] + " " + pt.lines[k+1] + "\n")
+				} else {
+					t.WriteString(pt.lines[k] + "\n")
+				}
+			}
+		case "import-on-package-line":
+			files[i].NotFirstOnLine = append(files[i].NotFirstOnLine, pt.names[0])
+			t.WriteString("package " + pt.pkg + "; " + pt.lines[0] + "\n")
+			for _, l := range pt.lines[1:] {
+				t.WriteString(l + "\n")
+			}
+		case "head-on-one-line":
+			files[i].NotFirstOnLine = append(files[i].NotFirstOnLine, pt.names...)
+			t.WriteString("package " + pt.pkg + "; " + strings.Join(pt.lines, " ") + "\n")
+		default:
+			t.WriteString("package " + pt.pkg + ";\n\n")
+			for _, l := range pt.lines {
+				t.WriteString(l + "\n")
+			}
+		}
+		if len(pt.lines) > 0 {
+			t.WriteString("\n")
+		}
+		// import-looking text inside comments: no import
+		if len(importable) > 0 && lr.Chance(1, 6) {
+			g := lr.Pick(importable)
+			ci := g + "." + lr.Pick([]string{"Legacy", "Old", "Removed"})
+			switch lr.Intn(3) {
+			case 0:
+				t.WriteString("/*\nimport " + ci + ";\n*/\n")
+			case 1:
+				t.WriteString("/* replaced:\n   import " + ci + ";\n   import static " + ci + ".of;\n */\n")
+			default:
+				t.WriteString("// import " + ci + ";\n")
+			}
+			files[i].CommentedImports = append(files[i].CommentedImports, ci)
+		}
+		t.WriteString(pt.body)
+		files[i].Layout = layout
+		files[i].Text = t.String()
 	}
 	sort.Slice(files, func(i, j int) bool { return files[i].Path < files[j].Path })
 	return files, mode
@@ -1197,7 +1275,7 @@ func (p *Project) ShapeKey() string {
 	}
 	s = append(s, p.Mode, p.Location, p.OutputCopy)
 	for _, f := range p.Java {
-		s = append(s, fmt.Sprintf("%s%d", f.Kind[:1], len(f.Imports)))
+		s = append(s, fmt.Sprintf("%s%d%s%d", f.Kind[:1], len(f.Imports), f.Layout, len(f.CommentedImports)))
 	}
 	return strings.Join(s, " ")
 }
